@@ -65,8 +65,12 @@ inductive RootFile where
 /-- The trust store handed to the TLS library: its built-in (system) roots — `builtin` is true because
 no `tls_built_in_root_certs(false)` call exists, see `Gen.builtinRootsDisabled` — plus the
 certificates read from `added`, in order, duplicates kept (`add_root_certificate` per file, `:170`).
-Observation: `Certificate::from_pem` decodes ONE certificate, so only the first PEM block of a bundle
-file is added; the store is then smaller than "the certificates given", never larger. -/
+A listed file stands for ONE root certificate (acmed.8: "--root-cert FILE  Add a root certificate to the
+trust store. This option can be used multiple times"): `Certificate::from_pem` decodes one certificate,
+the first PEM block; further CERTIFICATE blocks of a bundle file are not among "the root certificates
+given", and a store that held them would be LARGER than the property allows (judged by the runs of
+py/ext/auditd_c18.py, item `bundle`: a chain that validates only through a later block must see no
+request).  `added` lists paths: one path = one certificate = the file's first block. -/
 structure Store where
   builtin : Bool
   added : List Path
